@@ -288,7 +288,6 @@ impl<'a, B: BitmapSlice> VolatileSlice<'a, B> {
 
 //@fn src/volatile_memory.rs :: impl<'a, B: BitmapSlice> VolatileSlice<'a, B> :: copy_to :: tags=C01,C07 div0tags=C18
 //@sub buf\.as_mut_ptr\(\) as Ptr => slice_as_mut_ptr(buf)
-//@sub buf\.len\(\)\.min\(self\.len\(\)\) => vmin(buf.len(), self.len())
 //@spec
     requires self.wf(), vstd::layout::size_of::<T>() <= isize::MAX,
     ensures
@@ -313,7 +312,6 @@ impl<'a, B: BitmapSlice> VolatileSlice<'a, B> {
 
 //@fn src/volatile_memory.rs :: impl<'a, B: BitmapSlice> VolatileSlice<'a, B> :: copy_from :: tags=C01,C07 div0tags=C18
 //@sub buf\.as_ptr\(\) as Ptr => slice_as_ptr(buf)
-//@sub buf\.len\(\)\.min\(self\.len\(\)\) => vmin(buf.len(), self.len())
 //@spec
     requires self.wf(), vstd::layout::size_of::<T>() <= isize::MAX,
 //@end
@@ -468,18 +466,20 @@ where
     ensures r.wf(), r.addr == self.addr, r.size == self.nelem * vstd::layout::size_of::<T>(), shifted(&r.bitmap, &self.bitmap, 0), r.mmap == self.mmap, // [C01,C05]
 //@end
 //@endfn
-//@fn src/volatile_memory.rs :: impl<'a, T, B> VolatileArrayRef<'a, T, B> :: ref_at :: tags=C01,C07
+//@fn src/volatile_memory.rs :: impl<'a, T, B> VolatileArrayRef<'a, T, B> :: ref_at :: tags=C01,C07 asserts=guard
 //@spec
+    // no precondition on `index`: the documented panic IS the bound check (R3g), so the reference
+    // handed out is proved inside the array FROM the function's own assert!, for every index
     requires self.wf(),
-        index < self.nelem, // documented panic: index out of range is program logic, not guest data
-    ensures r.wf(), r.addr.a == self.addr.a + index * vstd::layout::size_of::<T>(), // [C01,C04]
+    ensures index < self.nelem,
+         r.wf(), r.addr.a == self.addr.a + index * vstd::layout::size_of::<T>(), // [C01,C04]
         r.addr.lo == self.addr.lo && r.addr.hi == self.addr.hi,
         shifted(&r.bitmap, &self.bitmap, index * vstd::layout::size_of::<T>()), r.mmap == self.mmap, // [C05]
 //@end
 //@before 1 /let byteofs/
             proof {
                 let sz = vstd::layout::size_of::<T>() as int;
-                assert(sz * index + sz <= self.nelem * sz) by (nonlinear_arith) requires index < self.nelem, sz >= 0;
+                if index < self.nelem { assert(sz * index + sz <= self.nelem * sz) by (nonlinear_arith) requires index < self.nelem, sz >= 0; }
                 assert(sz * index == index * sz) by (nonlinear_arith);
                 assert(0 <= sz * index) by (nonlinear_arith) requires sz >= 0, index >= 0;
             }
@@ -488,12 +488,12 @@ where
 //@endfn
 //@fn src/volatile_memory.rs :: impl<'a, T, B> VolatileArrayRef<'a, T, B> :: load :: tags=C01,C07
 //@spec
-    requires self.wf(), index < self.nelem,
+    requires self.wf(),
 //@end
 //@endfn
 //@fn src/volatile_memory.rs :: impl<'a, T, B> VolatileArrayRef<'a, T, B> :: store :: tags=C01,C07
 //@spec
-    requires self.wf(), index < self.nelem,
+    requires self.wf(),
 //@end
 //@endfn
 //@fn src/volatile_memory.rs :: impl<'a, T, B> VolatileArrayRef<'a, T, B> :: copy_to_volatile_slice :: tags=C01,C07
@@ -534,20 +534,27 @@ impl ByteValued for u8 {}
 //@endfn
 
 // ------------------------------------------------------------------ io.rs stream traits
+/// callee-precondition trick for the window a generic stream is handed: `accepts` is abstract for a
+/// generic F, so the only way to discharge it is the caller's own precondition, which names exactly
+/// the permitted window (the in-memory streams accept any valid slice)
 pub trait ReadVolatile {
+    spec fn accepts<B: BitmapSlice>(&self, s: VolatileSlice<B>) -> bool;
     fn read_volatile<B: BitmapSlice>(&mut self, buf: &mut VolatileSlice<B>) -> (r: Result<usize>)
-        requires old(buf).wf(),
+        requires old(buf).wf(), // [C01]
+            old(self).accepts(*old(buf)), // [C01,C04,C03]
         ensures *final(buf) == *old(buf);
 }
 pub trait WriteVolatile {
+    spec fn accepts<B: BitmapSlice>(&self, s: VolatileSlice<B>) -> bool;
     fn write_volatile<B: BitmapSlice>(&mut self, buf: &VolatileSlice<B>) -> (r: Result<usize>)
-        requires buf.wf();
+        requires buf.wf(), // [C01]
+            old(self).accepts(*buf); // [C01,C04,C03]
 }
 
 impl ReadVolatile for &[u8] {
+    open spec fn accepts<B: BitmapSlice>(&self, s: VolatileSlice<B>) -> bool { true }
 //@fn src/io.rs :: impl ReadVolatile for &\[u8\] :: read_volatile :: tags=C04,C07,C13
 //@sub Result<usize, VolatileMemoryError> => Result<usize>
-//@sub buf\.len\(\)\.min\(self\.len\(\)\) => vmin(buf.len(), self.len())
 //@sub self\.as_ptr\(\) => slice_as_ptr(*self)
 //@spec
         ensures r == Ok::<usize, Error>(if old(buf).size <= old(self)@.len() { old(buf).size } else { old(self)@.len() as usize }), // [C04,C13]
@@ -557,6 +564,7 @@ impl ReadVolatile for &[u8] {
 }
 
 impl WriteVolatile for &mut [u8] {
+    open spec fn accepts<B: BitmapSlice>(&self, s: VolatileSlice<B>) -> bool { true }
     // body uses std::mem::take + split_at_mut (reborrow juggling Verus has no spec for): verified by
     // Kani (K-io, C13) against std's own Write for &mut [u8]; here the same contract is assumed.
     #[verifier::external_body]
@@ -599,6 +607,28 @@ impl<B: BitmapSlice> VolatileSlice<'_, B> {
         proof { assume(buf@.len() == old(buf)@.len()); }
 //@end
 //@endfn
+// the single-call stream forms.  Extraction drops the retry_eintr! wrapper (a loop repeating the
+// identical call while it reports EINTR -- C14's subject, decided by the native enumeration): what is
+// proved here is which window of the slice the stream is handed, for every addr / count, and that the
+// `unwrap()` cannot fire.
+//@fn src/volatile_memory.rs :: impl<B: BitmapSlice> Bytes<usize> for VolatileSlice<'_, B> :: read_volatile_from :: tags=C01,C04,C07,C18
+//@sub (?m)retry_eintr!\((.*)\)\s*$ => \1
+//@spec
+    requires self.wf(),
+        forall|s: VolatileSlice<B>| s.is_sub(self, addr as int, (if count <= self.size - addr { count as int } else { self.size - addr })) ==> old(src).accepts(s), // [C01,C04,C03]
+    ensures addr > self.size ==> r is Err, // [C01,C04]
+//@end
+//@canary whole_rest :: vmin\(slice\.len\(\), count\) => slice.len()
+//@endfn
+//@fn src/volatile_memory.rs :: impl<B: BitmapSlice> Bytes<usize> for VolatileSlice<'_, B> :: write_volatile_to :: tags=C01,C04,C07,C18
+//@sub (?m)retry_eintr!\((.*)\)\s*$ => \1
+//@spec
+    requires self.wf(),
+        forall|s: VolatileSlice<B>| s.is_sub(self, addr as int, (if count <= self.size - addr { count as int } else { self.size - addr })) ==> old(dst).accepts(s), // [C01,C04,C03]
+    ensures addr > self.size ==> r is Err, // [C01,C04]
+//@end
+//@canary whole_rest :: vmin\(slice\.len\(\), count\) => slice.len()
+//@endfn
 //@fn src/volatile_memory.rs :: impl<B: BitmapSlice> Bytes<usize> for VolatileSlice<'_, B> :: write :: tags=C01,C04,C07,C18 
 //@spec
     requires self.wf(),
@@ -630,6 +660,11 @@ pub trait VolatileMemory {
     spec fn vm_mmap_none(&self) -> bool;
     /// `s` is exactly bytes [off, off+count) of this container, bitmap shifted accordingly
     spec fn vm_sub<'b>(&self, s: &VolatileSlice<'b, <Self::B as Bitmap>::S>, off: int, count: int) -> bool;
+    /// this implementor's get_slice answers exactly the requested window (true for the crate's own
+    /// implementors, proved below).  The trait documentation says unsafe code MUST NOT rely on it:
+    /// for an arbitrary implementor only `r.wf()` (a VolatileSlice is constructed over valid memory)
+    /// is known, and the provided methods must still hand out accessors inside that slice.
+    spec fn vm_exact(&self) -> bool;
 
     fn len(&self) -> (r: usize)
         ensures r == self.vm_len();
@@ -637,9 +672,10 @@ pub trait VolatileMemory {
     fn get_slice(&self, offset: usize, count: usize) -> (r: Result<VolatileSlice<<Self::B as Bitmap>::S>>)
         requires self.vm_wf(),
         ensures
-            offset + count <= self.vm_len() ==> r is Ok, // [C01,C02,C04,C18]
-            offset + count > self.vm_len() ==> r is Err, // [C01]
-            r is Ok ==> self.vm_sub(&r.unwrap(), offset as int, count as int) && r.unwrap().wf() && r.unwrap().size == count, // [C01,C04,C05]
+            r is Ok ==> r.unwrap().wf(), // [C01]
+            self.vm_exact() && offset + count <= self.vm_len() ==> r is Ok, // [C01,C02,C04,C18]
+            self.vm_exact() && offset + count > self.vm_len() ==> r is Err, // [C01]
+            self.vm_exact() && r is Ok ==> self.vm_sub(&r.unwrap(), offset as int, count as int) && r.unwrap().size == count, // [C01,C04,C05]
     ;
 
 //@fn src/volatile_memory.rs :: pub trait VolatileMemory :: is_empty :: tags=C01
@@ -650,31 +686,33 @@ pub trait VolatileMemory {
 
 //@fn src/volatile_memory.rs :: pub trait VolatileMemory :: as_volatile_slice :: tags=C01,C07
 //@spec
-    requires self.vm_wf(), 0 <= self.vm_len() <= usize::MAX,
+    requires self.vm_wf(), 0 <= self.vm_len() <= usize::MAX, self.vm_exact(),
     ensures self.vm_sub(&r, 0, self.vm_len()) && r.wf() && r.size == self.vm_len(), // [C01,C03]
 //@end
 //@endfn
 
-//@fn src/volatile_memory.rs :: pub trait VolatileMemory :: get_ref :: tags=C01,C07
+//@fn src/volatile_memory.rs :: pub trait VolatileMemory :: get_ref :: tags=C01,C07 asserts=guardif:self.vm_exact()
 //@spec
     requires self.vm_wf(),
     ensures
-        offset + vstd::layout::size_of::<T>() <= self.vm_len() ==> r is Ok, // [C01,C04,C18]
-        offset + vstd::layout::size_of::<T>() > self.vm_len() ==> r is Err, // [C01]
-        r is Ok ==> r.unwrap().wf() && self.vm_sub(&r.unwrap().view_slice(), offset as int, vstd::layout::size_of::<T>() as int), // [C01,C04,C05]
+        r is Ok ==> r.unwrap().wf(), // [C01]
+        self.vm_exact() && offset + vstd::layout::size_of::<T>() <= self.vm_len() ==> r is Ok, // [C01,C04,C18]
+        self.vm_exact() && offset + vstd::layout::size_of::<T>() > self.vm_len() ==> r is Err, // [C01]
+        self.vm_exact() && r is Ok ==> self.vm_sub(&r.unwrap().view_slice(), offset as int, vstd::layout::size_of::<T>() as int), // [C01,C04,C05]
 //@end
 //@canary wrong_base :: slice\.addr, => slice.addr.add(1),
 //@endfn
 
-//@fn src/volatile_memory.rs :: pub trait VolatileMemory :: get_array_ref :: tags=C01,C07
+//@fn src/volatile_memory.rs :: pub trait VolatileMemory :: get_array_ref :: tags=C01,C07 asserts=guardif:self.vm_exact()
 //@sub \|n\| n\.checked_mul\(size_of::<T>\(\) as isize\) => |n: isize| -> (r: Option<isize>) ensures r == (if n * vstd::layout::size_of::<T>() <= isize::MAX && n * vstd::layout::size_of::<T>() >= isize::MIN { Some((n * vstd::layout::size_of::<T>()) as isize) } else { None::<isize> }) { n.checked_mul(size_of::<T>() as isize) }
 //@spec
     requires self.vm_wf(), vstd::layout::size_of::<T>() <= isize::MAX,
     ensures
-        offset + n * vstd::layout::size_of::<T>() <= self.vm_len() && n * vstd::layout::size_of::<T>() <= isize::MAX && n <= isize::MAX ==> r is Ok, // [C01,C04,C18]
-        offset + n * vstd::layout::size_of::<T>() > self.vm_len() ==> r is Err, // [C01]
+        r is Ok ==> r.unwrap().wf() && r.unwrap().nelem == n, // [C01]
+        self.vm_exact() && offset + n * vstd::layout::size_of::<T>() <= self.vm_len() && n * vstd::layout::size_of::<T>() <= isize::MAX && n <= isize::MAX ==> r is Ok, // [C01,C04,C18]
+        self.vm_exact() && offset + n * vstd::layout::size_of::<T>() > self.vm_len() ==> r is Err, // [C01]
         n * vstd::layout::size_of::<T>() > isize::MAX ==> r is Err, // [C01]
-        r is Ok ==> r.unwrap().wf() && r.unwrap().nelem == n && self.vm_sub(&r.unwrap().view_slice(), offset as int, n * vstd::layout::size_of::<T>()), // [C01,C04,C05]
+        self.vm_exact() && r is Ok ==> self.vm_sub(&r.unwrap().view_slice(), offset as int, n * vstd::layout::size_of::<T>()), // [C01,C04,C05]
 //@end
 //@before 1 /let slice = self\.get_slice/
         proof {
@@ -685,7 +723,7 @@ pub trait VolatileMemory {
 //@canary wrapping_mul :: n\.checked_mul\(size_of::<T>\(\) as isize\) \} => Some(n.wrapping_mul(size_of::<T>() as isize)) }
 //@endfn
 
-//@fn src/volatile_memory.rs :: pub trait VolatileMemory :: aligned_as_ref :: tags=C01,C07 :: noret
+//@fn src/volatile_memory.rs :: pub trait VolatileMemory :: aligned_as_ref :: tags=C01,C07 asserts=guardif:self.vm_exact() :: noret
 //@sub &\*\(slice\.addr as \*const T\) => deref_at::<T>(slice.addr)
 //@before 0 /-/
         proof { layout_facts::<T>(); }
@@ -696,7 +734,7 @@ pub trait VolatileMemory {
 //@canary no_align_check :: slice\.check_alignment\(align_of::<T>\(\)\)\?; => ;
 //@endfn
 
-//@fn src/volatile_memory.rs :: pub trait VolatileMemory :: aligned_as_mut :: tags=C01,C07 :: noret
+//@fn src/volatile_memory.rs :: pub trait VolatileMemory :: aligned_as_mut :: tags=C01,C07 asserts=guardif:self.vm_exact() :: noret
 //@sub &mut \*\(slice\.addr as \*mut T\) => deref_mut_at::<T>(slice.addr)
 //@before 0 /-/
         proof { layout_facts::<T>(); }
@@ -706,7 +744,7 @@ pub trait VolatileMemory {
 //@end
 //@endfn
 
-//@fn src/volatile_memory.rs :: pub trait VolatileMemory :: get_atomic_ref :: tags=C01,C07 :: noret
+//@fn src/volatile_memory.rs :: pub trait VolatileMemory :: get_atomic_ref :: tags=C01,C07 asserts=guardif:self.vm_exact() :: noret
 //@sub &\*\(slice\.addr as \*const T\) => deref_at::<T>(slice.addr)
 //@before 0 /-/
         proof { layout_facts::<T>(); }
@@ -734,6 +772,7 @@ impl<'a, B: BitmapSlice> VolatileMemory for VolatileSlice<'a, B> {
     open spec fn vm_len(&self) -> int { self.size as int }
     open spec fn vm_wf(&self) -> bool { self.wf() }
     open spec fn vm_mmap_none(&self) -> bool { self.mmap is None }
+    open spec fn vm_exact(&self) -> bool { true }
     open spec fn vm_sub<'b>(&self, s: &VolatileSlice<'b, B>, off: int, count: int) -> bool {
         s.wf()
         && s.addr.lo == self.addr.lo && s.addr.hi == self.addr.hi && s.addr.live == self.addr.live
@@ -781,6 +820,7 @@ impl<B: Bitmap> VolatileMemory for MmapRegion<B> {
     open spec fn vm_len(&self) -> int { self.size as int }
     open spec fn vm_wf(&self) -> bool { self.wf() }
     open spec fn vm_mmap_none(&self) -> bool { true }
+    open spec fn vm_exact(&self) -> bool { true }
     open spec fn vm_sub<'b>(&self, s: &VolatileSlice<'b, B::S>, off: int, count: int) -> bool {
         s.wf()
         && s.addr.lo == self.addr.lo && s.addr.hi == self.addr.hi && s.addr.live == self.addr.live
